@@ -1568,3 +1568,120 @@ Lemma wf_no_nesting_l cf progs s : wf_progs cf progs = true -> R cf progs s -> ~
 Proof.
   intros Hwf HR [a [la [Ha [Hh Hfb]]]]. exact (wfl_releases cf la (R_wfl cf progs s Hwf HR a la Ha) Hfb Hh).
 Qed.
+
+(* ================================================================== *)
+(* C02: readers and writers never overlap; readers can share            *)
+(* ================================================================== *)
+(* what one step can do to the exclusive owner: nothing, release it, or take it - only when the mutex is free *)
+Lemma owner_step cf t c g l g' l' es : tstep cf t c g l = Some (g', l', es) ->
+  owner g' = owner g \/ owner g' = None \/ (owner g' = Some t /\ free_x g = true).
+Proof.
+  intros Hs. destruct l as [pr p sl].
+  step_cases Hs; auto.
+  all: try match goal with H : acquire _ _ _ _ _ = Some (_, ?b, _) |- _ => is_var b; destruct b end.
+  all: try match goal with H : acquire _ ?sm _ _ _ = Some (_, true, _) |- _ =>
+         destruct (acquire_true _ _ _ _ _ _ _ H) as [Hobt ->]; destruct sm; cbn in *; auto end.
+  all: try match goal with H : acquire _ _ _ _ _ = Some (_, false, _) |- _ =>
+         destruct (acquire_false _ _ _ _ _ _ _ H) as [_ ->]; auto end.
+  all: try match goal with H : release ?sm _ _ _ = (_, _) |- _ =>
+         rewrite (release_eq _ _ _ _ _ _ H); destruct sm; cbn; auto end.
+  all: try (left; apply exec_mi_mutex).
+Qed.
+
+Lemma R_step cf progs s tc : R cf progs s -> R cf progs (step glob loc (tstep cf) s tc).
+Proof. apply reachable_step. Qed.
+
+(* t holds the mutex in shared mode: a live shared handle, or inside read / ordered load, on a shared-capable mutex *)
+Definition holds_shared (cf : config) (s : sysW) (t : nat) : Prop := (1 <= lsh cf (locof (thr s) t))%nat.
+
+Lemma shared_no_owner cf g ls t : Inv1 cf g ls -> (1 <= lsh cf (locof ls t))%nat -> owner g = None /\ free_x g = false.
+Proof.
+  intros H1 Ht. rewrite (I_s _ _ _ H1) in Ht. unfold shc in Ht.
+  assert (sharers g <> []) as Hne by (intros E; rewrite E in Ht; cbn in Ht; lia).
+  destruct (owner g) as [a|] eqn:Eo.
+  - exfalso. apply Hne. apply (I_m _ _ _ H1). congruence.
+  - split; [reflexivity|]. unfold free_x. rewrite Eo. destruct (sharers g); [congruence|reflexivity].
+Qed.
+
+(* while a shared lock is held: nobody holds the mutex exclusively, and no modification window is open *)
+Lemma rw_exclusion_l cf progs s t : R cf progs s -> holds_shared cf s t ->
+  (forall u, lx cf (locof (thr s) u) = 0%nat) /\
+  (safe cf (gl s) -> forall u, wropen (at_ (locof (thr s) u)) = false).
+Proof.
+  intros HR Ht. destruct (R_inv _ _ _ HR) as [H1 H2].
+  destruct (shared_no_owner _ _ _ _ H1 Ht) as [Ho _].
+  assert (HX : forall u, lx cf (locof (thr s) u) = 0%nat).
+  { intros u. rewrite (I_x _ _ _ H1). unfold own1. rewrite Ho. reflexivity. }
+  split; [exact HX|]. intros Hs u.
+  destruct (wropen (at_ (locof (thr s) u))) eqn:E; [|reflexivity]. exfalso.
+  destruct (wropen_run _ E) as [fr [i [rest [ph [r [ok [Hp Hro]]]]]]].
+  destruct (I_cov _ _ _ H2 Hs u _ _ _ _ _ Hp) as [Hx|[_ Hn]]; [rewrite HX in Hx; discriminate|].
+  cbn in Hn. rewrite Hro in Hn. discriminate.
+Qed.
+
+(* ... and no modification can start: whatever step is taken, nobody holds the mutex exclusively afterwards
+   and no modification window is open (the steps that would take the exclusive lock are disabled) *)
+Lemma no_mod_starts_l cf progs s t u c : R cf progs s -> holds_shared cf s t ->
+  let s' := step glob loc (tstep cf) s (u, c) in
+  (forall v, lx cf (locof (thr s') v) = 0%nat) /\
+  (safe cf (gl s') -> forall v, wropen (at_ (locof (thr s') v)) = false).
+Proof.
+  intros HR Ht s'. pose proof (R_step cf progs s (u, c) HR) as HR'. fold s' in HR'.
+  destruct (R_inv _ _ _ HR) as [H1 _]. destruct (R_inv _ _ _ HR') as [H1' H2'].
+  destruct (shared_no_owner _ _ _ _ H1 Ht) as [Ho Hf].
+  assert (Ho' : owner (gl s') = None).
+  { unfold s', step, sys_step. destruct (nth_error (thr s) u) as [l|] eqn:El; [|exact Ho].
+    destruct (tstep cf u c (gl s) l) as [[[g' l'] es]|] eqn:Es; [|exact Ho]. cbn.
+    destruct (owner_step _ _ _ _ _ _ _ _ Es) as [E|[E|[_ E]]]; congruence. }
+  assert (HX : forall v, lx cf (locof (thr s') v) = 0%nat).
+  { intros v. rewrite (I_x _ _ _ H1'). unfold own1. rewrite Ho'. reflexivity. }
+  split; [exact HX|]. intros Hs v.
+  destruct (wropen (at_ (locof (thr s') v))) eqn:E; [|reflexivity]. exfalso.
+  destruct (wropen_run _ E) as [fr [i [rest [ph [r [ok [Hp Hro]]]]]]].
+  destruct (I_cov _ _ _ H2' Hs v _ _ _ _ _ Hp) as [Hx|[_ Hn]]; [rewrite HX in Hx; discriminate|].
+  cbn in Hn. rewrite Hro in Hn. discriminate.
+Qed.
+(* the blocking exclusive acquisitions themselves are disabled *)
+Lemma writer_blocked_l cf progs s t u c l : R cf progs s -> holds_shared cf s t ->
+  nth_error (thr s) u = Some l -> blocked_on cf l false -> tstep cf u c (gl s) l = None.
+Proof.
+  intros HR Ht Hl Hb. destruct (R_inv _ _ _ HR) as [H1 _]. destruct (shared_no_owner _ _ _ _ H1 Ht) as [_ Hf].
+  destruct l as [pr p sl]. unfold tstep, blocked_on in *. cbn [at_ slots prog] in *.
+  destruct Hb as [[h [sh [-> Em]]]|[o [gsh [code [-> [Ew Em]]]]]].
+  - rewrite <- Em. unfold acquire, obtainable. rewrite Hf. reflexivity.
+  - rewrite Ew, <- Em. unfold acquire, obtainable. rewrite Hf. reflexivity.
+Qed.
+
+(* readers share: with a shared-capable mutex a shared acquisition (handle, read, ordered load) is enabled
+   whenever there is no exclusive owner - whatever the sharers are, under every choice *)
+Lemma readers_share_handle_l cf t c g pr sl h am : shcap cf = true -> owner g = None ->
+  exists r, tstep cf t c g (Loc pr (HAcq h am true) sl) = Some r.
+Proof.
+  intros Hc Ho. unfold tstep. cbn [at_ slots prog]. rewrite Hc. cbn [andb].
+  assert (exists x, acquire am true t c g = Some x) as [[[g1 okk] e] ->].
+  { unfold acquire, obtainable, free_s. rewrite Ho. destruct am; cbn; eexists; reflexivity. }
+  destruct (slot sl h) as [old|]; [destruct (hown old)|]; eexists; reflexivity.
+Qed.
+Lemma readers_share_guard_l cf t c g pr sl o code : shcap cf = true -> owner g = None ->
+  wop_code cf o = Some (true, code) -> exists r, tstep cf t c g (Loc pr (GAcq o) sl) = Some r.
+Proof.
+  intros Hc Ho Ew. unfold tstep. cbn [at_ slots prog]. rewrite Ew, Hc. cbn [andb].
+  unfold acquire, obtainable, free_s. rewrite Ho. eexists; reflexivity.
+Qed.
+
+(* a plain mutex: a shared handle (or read / ordered load) holds the mutex exclusively, so it excludes everybody *)
+Definition holds_shared_type (cf : config) (l : loc) : Prop :=
+  (exists h x, slot (slots l) h = Some x /\ hsh x = true /\ hown x = true) \/
+  (exists o gid code ph r ok c0, at_ l = Run (FGuard o gid) code ph r ok /\ wop_code cf o = Some (true, c0)).
+Lemma plain_degrades_safely_l cf progs s t l u : R cf progs s -> shcap cf = false ->
+  nth_error (thr s) t = Some l -> holds_shared_type cf l -> u <> t ->
+  in_excl_access cf s t /\ ~ holds_lock cf s u /\ (safe cf (gl s) -> ~ in_any_access s u).
+Proof.
+  intros HR Hc Hl Hh Hne.
+  assert (in_excl_access cf s t) as Hx.
+  { unfold in_excl_access. rewrite (locof_at _ _ _ Hl). unfold lx.
+    destruct Hh as [[h [x [Hs [Hsh Ho]]]]|[o [gid [code [ph [r [ok [c0 [Hp Ew]]]]]]]]].
+    - pose proof (cnt_ge (hx cf) _ _ _ Hs) as G. unfold hx at 1 in G. rewrite Ho, Hc, andb_false_r in G. cbn in G. lia.
+    - rewrite Hp. cbn [pcx]. unfold gmode. rewrite Ew, Hc, andb_false_r. cbn. lia. }
+  split; [exact Hx|]. apply (excl_invariant_l cf progs s t u HR Hx Hne).
+Qed.
